@@ -8,7 +8,7 @@ V = os.path.dirname(os.path.dirname(os.path.abspath(__file__)))
 S = os.path.join(V, 'seeded')
 res = json.load(open(os.path.join(S, 'results.json')))
 rows = []
-for m in sorted(d for d in os.listdir(S) if os.path.isdir(os.path.join(S, d))):
+for m in sorted((d for d in os.listdir(S) if os.path.isdir(os.path.join(S, d))), key=lambda d: (d.split('-m')[0], int(d.split('-m')[1]))):
     notes = open(os.path.join(S, m, 'notes.md')).read() if os.path.exists(os.path.join(S, m, 'notes.md')) else ''
     lines = [l.strip() for l in notes.splitlines() if l.strip()]
     title = re.sub(r'^#+\s*', '', lines[0]) if lines else ''
@@ -25,7 +25,7 @@ for m in sorted(d for d in os.listdir(S) if os.path.isdir(os.path.join(S, d))):
     caught = sorted(c for c, v in r.items() if v.get('detected'))
     missed = sorted(c for c, v in r.items() if not v.get('detected'))
     meta = dict(
-        id=m, property=m.split('-')[0], round={'m1': 1, 'm2': 1, 'm3': 2, 'm4': 2}.get(m.split('-')[1], 3), title=title, files_changed=files,
+        id=m, property=m.split('-')[0], round=(int(m.split('-m')[1]) + 1) // 2, title=title, files_changed=files,
         needs_to_manifest=need or title,
         origin='written by a fresh sub-agent that was given only the property text and a scratch git worktree of /repo (nothing from /verif)',
         confirmed=dict(how='tools/seedvalidate.sh: patch applies to /repo HEAD in a scratch worktree; the 45 pinned tests pass with it; demo.py exits 0 without and non-zero with the patch',
